@@ -455,3 +455,217 @@ def gen_options(repo, L):
 
 
 GENERATORS = {"Options": gen_options}
+
+
+# ======================================================================================================================
+# Gen/OptFlow.v - main()'s option plumbing, statement by statement, as a def/use program (C16)
+#
+# Every top-level statement of main() after `args = parser.parse_args()` becomes (label, uses, defs) over the variables
+#   local names | "args.<dest>" (the namespace is never assigned nor used whole: checked) | "HEAP" | "EXIT"
+# Variables hold references; every object (File, Errors, Context, lists ...) lives in HEAP.  A statement USES HEAP when
+# it reads an attribute / subscript / iterates / calls; it DEFINES HEAP when it contains a call (other than the builtins
+# next/filter over pure arguments), an attribute / subscript store, a loop or a comprehension.  EXIT = "the process has
+# left main()": defined by statements containing sys.exit / raise / return.  Every statement also uses EXIT and its own
+# defs (weak update), so "defs := f(uses)" covers conditional and skipped execution.  Compound statements are one
+# statement (their inner control flow is inside f).
+PURE_CALLS = {"next", "filter"}
+
+
+def _pure_expr(n):
+    """expressions that cannot write the heap: names, constants, attribute loads, == / != / not / and / or / if-else,
+    lambdas over such, calls of next/filter over such (trusted: no property / dunder with side effects on these values)"""
+    if isinstance(n, (ast.Name, ast.Constant)):
+        return True
+    if isinstance(n, ast.Attribute):
+        return _pure_expr(n.value)
+    if isinstance(n, ast.Compare):
+        return all(isinstance(o, (ast.Eq, ast.NotEq, ast.Is, ast.IsNot)) for o in n.ops) and _pure_expr(n.left) \
+            and all(_pure_expr(c) for c in n.comparators)
+    if isinstance(n, ast.UnaryOp) and isinstance(n.op, ast.Not):
+        return _pure_expr(n.operand)
+    if isinstance(n, ast.BoolOp):
+        return all(_pure_expr(v) for v in n.values)
+    if isinstance(n, ast.IfExp):
+        return _pure_expr(n.test) and _pure_expr(n.body) and _pure_expr(n.orelse)
+    if isinstance(n, ast.Lambda):
+        return _pure_expr(n.body)
+    if isinstance(n, ast.Call) and isinstance(n.func, ast.Name) and n.func.id in PURE_CALLS and not n.keywords:
+        return all(_pure_expr(a) for a in n.args)
+    if isinstance(n, (ast.Tuple, ast.List)):
+        return all(_pure_expr(e) for e in n.elts)
+    return False
+
+
+def _flow_stmt(st):
+    uses, defs = set(), set()
+    reads_heap = writes_heap = exits = False
+    # names bound by a lambda / a comprehension are local to that expression (Python 3 scoping): not program variables
+    scoped = {}
+
+    def mark(node, bound):
+        for c in ast.iter_child_nodes(node):
+            b = bound
+            if isinstance(c, ast.Lambda):
+                b = bound | {a.arg for a in c.args.args + c.args.kwonlyargs + c.args.posonlyargs}
+            elif isinstance(c, (ast.ListComp, ast.SetComp, ast.DictComp, ast.GeneratorExp)):
+                tg = set()
+                for g in c.generators:
+                    for x in ast.walk(g.target):
+                        if isinstance(x, ast.Name):
+                            tg.add(x.id)
+                b = bound | tg
+            if isinstance(c, (ast.Name, ast.arg)):
+                scoped[c] = b
+            mark(c, b)
+    mark(st, frozenset())
+    for n in ast.walk(st):
+        if isinstance(n, ast.Name) and n.id in scoped.get(n, ()):
+            continue
+        if isinstance(n, ast.arg) and n.arg in scoped.get(n, ()):
+            continue
+        if isinstance(n, ast.Attribute) and isinstance(n.value, ast.Name) and n.value.id == "args":
+            if not isinstance(n.ctx, ast.Load):
+                raise TranslateError("main(): args.%s assigned" % n.attr)
+            uses.add("args." + n.attr)
+        elif isinstance(n, ast.Name):
+            if n.id == "args":
+                continue                        # only as args.<dest> (checked by gen_options)
+            (uses if isinstance(n.ctx, ast.Load) else defs).add(n.id)
+            if isinstance(n.ctx, ast.Del):
+                defs.add(n.id)
+        elif isinstance(n, ast.arg):
+            defs.add(n.arg)
+        elif isinstance(n, (ast.Attribute, ast.Subscript)):
+            reads_heap = True
+            if not isinstance(n.ctx, ast.Load):
+                writes_heap = True
+        elif isinstance(n, (ast.For, ast.While, ast.ListComp, ast.SetComp, ast.DictComp, ast.GeneratorExp, ast.With, ast.JoinedStr,
+                            ast.BinOp, ast.AugAssign, ast.Starred, ast.Try)):
+            reads_heap = writes_heap = True
+        elif isinstance(n, ast.Call):
+            reads_heap = True
+            if ast.unparse(n.func) == "sys.exit":
+                exits = True
+        elif isinstance(n, (ast.Raise, ast.Return)):
+            exits = True
+        elif isinstance(n, (ast.Global, ast.Nonlocal, ast.Import, ast.ImportFrom, ast.FunctionDef, ast.ClassDef, ast.Yield,
+                            ast.YieldFrom, ast.Await, ast.NamedExpr)):
+            raise TranslateError("main(): construct not covered by the flow translation: %s" % type(n).__name__)
+    # heap writes: any call outside the pure grammar
+    if isinstance(st, ast.Assign) and len(st.targets) == 1 and isinstance(st.targets[0], ast.Name) and _pure_expr(st.value):
+        pass
+    elif any(isinstance(n, ast.Call) for n in ast.walk(st)):
+        writes_heap = True
+    if reads_heap or writes_heap:
+        uses.add("HEAP")
+    if writes_heap:
+        defs.add("HEAP")
+    if exits:
+        defs.add("EXIT")
+    uses.add("EXIT")
+    uses |= defs
+    if isinstance(st, (ast.If, ast.While)):
+        label = "if " + ast.unparse(st.test)
+    elif isinstance(st, ast.For):
+        label = "for " + ast.unparse(st.target) + " in " + ast.unparse(st.iter)
+    else:
+        label = ast.unparse(st)
+    return " ".join(label.split())[:110], sorted(uses), sorted(defs)
+
+
+def gen_optflow(repo, L):
+    with open(os.path.join(repo, "norminette/__main__.py")) as f:
+        tree = ast.parse(f.read())
+    mains = [n for n in tree.body if isinstance(n, ast.FunctionDef) and n.name == "main"]
+    if len(mains) != 1:
+        raise TranslateError("__main__.py: main() not found")
+    body = mains[0].body
+    pa = [i for i, st in enumerate(body) if isinstance(st, ast.Assign) and ast.unparse(st) == "args = parser.parse_args()"]
+    if len(pa) != 1:
+        raise TranslateError("__main__.py: `args = parser.parse_args()` is not a top-level statement of main()")
+    rest = body[pa[0] + 1:]
+    for st in body[:pa[0]]:
+        if any(isinstance(n, ast.Name) and n.id == "args" for n in ast.walk(st)):
+            raise TranslateError("__main__.py: args used before parse_args()")
+    flow = [_flow_stmt(st) for st in rest]
+
+    def has_call(st, name):
+        return any(isinstance(n, ast.Call) and ast.unparse(n.func) == name for n in ast.walk(st))
+    loops = [i for i, st in enumerate(rest) if isinstance(st, ast.For) and has_call(st, "registry.run")]
+    if len(loops) != 1 or not all(has_call(rest[loops[0]], c) for c in ("Lexer", "Context")):
+        raise TranslateError("__main__.py: the analysis loop (for ...: Lexer / Context / registry.run) is not one top-level for")
+    for i, st in enumerate(rest):
+        if i != loops[0] and any(has_call(st, c) for c in ("Lexer", "Context", "registry.run")):
+            raise TranslateError("__main__.py: analysis call outside the analysis loop")
+    fmts = [i for i, st in enumerate(rest) if isinstance(st, ast.Assign) and isinstance(st.value, ast.Call)
+            and isinstance(st.value.func, ast.Name) and st.value.func.id == "format"]
+    if len(fmts) != 1:
+        raise TranslateError("__main__.py: expected exactly one top-level `<x> = format(...)`")
+    # Context(...) call and Context.__init__
+    ccalls = [n for n in ast.walk(rest[loops[0]]) if isinstance(n, ast.Call) and ast.unparse(n.func) == "Context"]
+    if len(ccalls) != 1 or ccalls[0].keywords:
+        raise TranslateError("__main__.py: expected one positional Context(...) call")
+    call_args = []
+    for a in ccalls[0].args:
+        if isinstance(a, ast.Name):
+            call_args.append(a.id)
+        elif isinstance(a, ast.Attribute) and isinstance(a.value, ast.Name) and a.value.id == "args":
+            call_args.append("args." + a.attr)
+        else:
+            raise TranslateError("__main__.py: Context(...) argument is not a name")
+    with open(os.path.join(repo, "norminette/context.py")) as f:
+        ctree = ast.parse(f.read())
+    cls = [n for n in ctree.body if isinstance(n, ast.ClassDef) and n.name == "Context"]
+    if len(cls) != 1:
+        raise TranslateError("context.py: class Context not found")
+    inits = [n for n in cls[0].body if isinstance(n, ast.FunctionDef) and n.name == "__init__"]
+    if len(inits) != 1:
+        raise TranslateError("context.py: Context.__init__ not found")
+    init = inits[0]
+    params = [a.arg for a in init.args.args][1:]
+    if init.args.vararg or init.args.kwarg or init.args.kwonlyargs:
+        raise TranslateError("context.py: Context.__init__ signature")
+    dbg = [st for st in init.body if isinstance(st, ast.Assign) and ast.unparse(st.targets[0]) == "self.debug"]
+    skp = [st for st in init.body if isinstance(st, ast.Assign) and ast.unparse(st.targets[0]) == "self.preproc.skip_define"]
+    if len(dbg) != 1 or len(skp) != 1:
+        raise TranslateError("context.py: expected one assignment each to self.debug and self.preproc.skip_define")
+    v = dbg[0].value
+    if not (isinstance(v, ast.Call) and isinstance(v.func, ast.Name) and v.func.id == "int" and len(v.args) == 1
+            and isinstance(v.args[0], ast.Name) and v.args[0].id in params and not v.keywords):
+        raise TranslateError("context.py: self.debug is not int(<parameter>)")
+    dbg_param = v.args[0].id
+    v = skp[0].value
+    if not (isinstance(v, ast.Compare) and len(v.ops) == 1 and isinstance(v.ops[0], ast.In) and isinstance(v.left, ast.Constant)
+            and isinstance(v.left.value, str) and isinstance(v.comparators[0], ast.BoolOp) and isinstance(v.comparators[0].op, ast.Or)
+            and len(v.comparators[0].values) == 2 and isinstance(v.comparators[0].values[0], ast.Name)
+            and v.comparators[0].values[0].id in params and isinstance(v.comparators[0].values[1], ast.List)
+            and not v.comparators[0].values[1].elts):
+        raise TranslateError("context.py: skip_define is not `<str> in (<parameter> or [])`")
+    skip_word, skip_param = v.left.value, v.comparators[0].values[0].id
+    for st in init.body:        # the two parameters are read nowhere else in __init__
+        if st is dbg[0] or st is skp[0]:
+            continue
+        for n in ast.walk(st):
+            if isinstance(n, ast.Name) and n.id in (dbg_param, skip_param):
+                raise TranslateError("context.py: %s read outside its one assignment in Context.__init__" % n.id)
+
+    def sl(xs):
+        return lst([lit(x) for x in xs])
+    o = "From NV Require Import Model.Base.\n\n"
+    o += "(* main() after `args = parser.parse_args()`: (statement, uses, defs) of every top-level statement, in order *)\n"
+    o += "Definition main_flow : list (string * list string * list string) :=\n  [%s].\n\n" % ";\n   ".join(
+        tup(lit(a), sl(u), sl(d)) for a, u, d in flow)
+    o += "Definition analysis_loop_index : nat := %d.\nDefinition format_call_index : nat := %d.\n\n" % (loops[0], fmts[0])
+    o += "(* Context(...) in the analysis loop and Context.__init__(self, ...) *)\n"
+    o += "Definition context_call_args : list string := %s.\n" % sl(call_args)
+    o += "Definition context_init_params : list string := %s.\n" % sl(params)
+    o += "Definition context_debug_param : string := %s.\nDefinition context_skip_param : string := %s.\n\n" % (lit(dbg_param), lit(skip_param))
+    o += "(* self.debug = int(%s)   [argparse action=count: an int, int(x) = x] *)\n" % dbg_param
+    o += "Definition gen_ctx_debug (%s : Z) : Z := %s.\n" % (dbg_param, dbg_param)
+    o += "(* self.preproc.skip_define = %s *)\n" % " ".join(ast.unparse(skp[0].value).split())
+    o += "Definition py_or_nil (x : option (list str)) : list str := match x with Some (c :: r) => c :: r | _ => [] end.\n"
+    o += "Definition gen_ctx_skip (%s : option (list str)) : bool := str_in (s %s) (py_or_nil %s).\n" % (skip_param, lit(skip_word), skip_param)
+    return o
+
+
+GENERATORS["OptFlow"] = gen_optflow
